@@ -353,6 +353,37 @@ impl<'j> Sim<'j> {
             });
             preexisting.push((path, words));
         }
+        // other programs' files, and dictionaries at the default locations from an earlier life of
+        // the user: none of the server's business unless the settings say so
+        let mut foreign: Vec<(String, Vec<u8>)> = vec![];
+        if job.prop == "C10" {
+            let mut fr = Rng::derive(job.seed, "foreign-files");
+            if fr.chance(2, 3) {
+                let d = reference::Settings::default();
+                let cands: Vec<(String, &str)> = vec![
+                    (oracle::user_dict_path(&d), "kubectl\nharperls\n"),
+                    (format!("{}/{}", oracle::file_dict_dir(&d), "proc%self%cwd%w%ws%old.md%"), "zxqv\n"),
+                    (format!("{WORLD}/tmp/other-app.tmp"), "scratch data of another program\n"),
+                    (format!("{WORLD}/run/other-app.lock"), ""),
+                    (format!("{WORLD}/home/notes.txt"), "teh user's own notes\n"),
+                    (format!("{WORLD}/home/.cache/other/cache.bin"), "\u{0}\u{1}\u{2}"),
+                ];
+                for (p, c) in cands {
+                    if fr.chance(1, 2) {
+                        foreign.push((p, c.as_bytes().to_vec()));
+                    }
+                }
+                seam::as_harness(|| {
+                    for (p, c) in &foreign {
+                        let rel = format!("w/{}", p.strip_prefix(&format!("{WORLD}/")).unwrap_or(p));
+                        if let Some(parent) = std::path::Path::new(&rel).parent() {
+                            let _ = std::fs::create_dir_all(parent);
+                        }
+                        let _ = std::fs::write(&rel, c);
+                    }
+                });
+            }
+        }
         let mut pr = Rng::derive(job.seed, "pct");
         let pct_changes = (0..3).map(|_| pr.below(400) as u64).collect();
         Sim {
@@ -393,6 +424,15 @@ impl<'j> Sim<'j> {
             doom: BTreeMap::new(),
         }
         .with_preexisting(preexisting)
+        .with_foreign(foreign)
+    }
+
+    fn with_foreign(mut self, foreign: Vec<(String, Vec<u8>)>) -> Self {
+        if !foreign.is_empty() {
+            self.res.count("c10_sessions_with_foreign_files", 1);
+        }
+        self.oracle_state.foreign_files = foreign.into_iter().collect();
+        self
     }
 
     fn with_preexisting(mut self, pre: Vec<(String, Vec<String>)>) -> Self {
@@ -1092,7 +1132,7 @@ fn prepare_world() {
     seam::as_harness(prepare_world_inner)
 }
 fn prepare_world_inner() {
-    for d in ["w", "w/home/.config", "w/home/.local/share", "w/home/.cache", "w/tmp", "w/ws", "w/cfg"] {
+    for d in ["w", "w/home/.config", "w/home/.local/share", "w/home/.local/state", "w/home/.cache", "w/tmp", "w/run", "w/ws", "w/cfg"] {
         let _ = std::fs::create_dir_all(d);
     }
     let _ = WORLD;
